@@ -50,6 +50,19 @@ PROPS = {
         assumptions=["signed zeros do not exist in the R-model: inputs differing only in the sign of zero are covered by the harness stream only",
                      "Euler-angle conversion (Eigen::eulerAngles) and SE3(isometry) are covered by the harness only; SE_K_3<2> exp/log embedding is proved on the closed-form paths (via C02) and by harness elsewhere"],
     ),
+    "C04": dict(
+        tracer_units=["SO3", "SE2", "SE3"],
+        coq_targets=["Props/Properties_C04.vo"],
+        coq_targets_thorough=["Props/Properties_C04x.vo"],
+        props_files=["Props/Properties_C04.v"],
+        props_files_thorough=["Props/Properties_C04x.v"],
+        cone=["Proofs/C04_*.v", "Props/Properties_C04*.v"],
+        harnesses=[dict(name="h_c04")],
+        trusted_base=TB_COMMON + ["Coquelicot's is_derive / auto_derive; Doc/Exp.v flows (proved to be the matrix exponential in the ODE sense, C02)",
+                                  "harness/h_c04.cpp + jacoracle.hpp: long-double oracle Jr(a) = int_0^1 expm(-s ad_a) ds and its inverse; action Jacobian from documented matrices"],
+        assumptions=["theorems cover the closed-form paths of SO3, SE2 (quick) and SE3 (thorough): inverse relation, right-Jacobian by definition, left variant; Galilei/SE_K_3, the series paths, the series identity sum (-1)^k ad^k/(k+1)!, dr_action and dr_rminus* are decided by the oracle harness",
+                     "rounding is not modelled"],
+    ),
     "C05": dict(
         tracer_units=["SO3", "SE2"],
         coq_targets=["Props/Properties_C05.vo"],
@@ -73,6 +86,12 @@ PROPS = {
 }
 
 MANIFEST_TEXT = {
+    "C04": dict(
+        technique="Coq proof over the regenerated model: Coquelicot auto_derive of the (proved) exponential flow w.r.t. every tangent coordinate equals flow * hat(column of the traced dr_exp) - the defining relation of the right Jacobian; field proofs that the traced dr_expinv is its inverse and dl_exp = Ad(exp) dr_exp; translator validation; long-double integral oracle harness",
+        text="For SO3, SE2 (and SE3 in the thorough tier) and every tangent vector on the closed-form side of the switch: machine-checked that d/da_k exp(a) = exp(a) hat(dr_exp(a) e_k) entry by entry (exp(a) being the flow that C02 proves equal to the traced exp and to be the matrix exponential), that the traced dr_expinv is the two-sided matrix inverse of the traced dr_exp (sin theta <> 0), and that dl_exp(a) = Ad(exp a) dr_exp(a) across both sign-canonicalisation outcomes. The regenerated model makes any changed coefficient or sign in calc_S1/cos_2/sin_3/calculate_q break an obligation. All groups, float/double, the series branches, dr_action, dr_rminus and dr_rminus_squarednorm are checked against an independent long-double oracle Jr(a)=int_0^1 expm(-s ad a) ds on stratified inputs.",
+        note="Trusted: Coq kernel, Coquelicot; translator (validated each run); rounding not modelled. Known findings C04-K1-* (cancellation just above the switch; Galilei double, dr_rminus_squarednorm, single precision).",
+        design_ref="DESIGN.md section 5 C04",
+    ),
     "C05": dict(
         technique="Coq proof over the regenerated model: Coquelicot auto_derive of every entry of the traced closed-form dr_exp / dr_expinv w.r.t. every tangent coordinate equals the corresponding entry of the traced d2r_exp / d2r_expinv in the documented stacked layout (field with trig atoms); translator validation; long-double Richardson oracle harness",
         text="For SO3 and SE2 and every tangent vector on the closed-form side of the switch: machine-checked that (d2r_exp a)[j][Dof*i+k] is the derivative of (dr_exp .)[i][j] with respect to a_k, and likewise d2r_expinv for dr_expinv (sin theta <> 0), for all 27+27 entries and both groups - i.e. the hand-expanded Hessian tables are the true second-order derivatives of the coded Jacobians in the documented layout; the closed-form path of each traced function is pinned by a lemma. The regenerated model makes any changed coefficient, sign or slot in either table break an obligation. SE3 (216-entry table), the series branches, the left variants and the generic helpers d_matrix_product / d2_fog are decided by the oracle harness (polynomial maps with exact derivatives; Richardson differences of an independent Jacobian oracle).",
